@@ -106,6 +106,13 @@ func DrawWorld(t *rapid.T, cfg WorldCfg) (*World, *Drawn) {
 	p := NewPKI(spec)
 	w := NewWorld(p, s)
 	q := w.Q
+	// serial numbers are only unique per honest CA: a third of the worlds re-use one of two leaf serials, so that
+	// different certificates (other key, other SGX values) of one issuer collide on (issuer, serial) within a process
+	if rapid.IntRange(0, 2).Draw(t, "sharedLeafSerial") == 0 {
+		// (long enough never to coincide with the random "unrelated" serials the CRLs list)
+		w.LeafSpec.Serial = [][]byte{{0x11, 0x22, 0x33, 0x44, 0x55, 0x66, 0x77, 0x08, 0x09, 0x0a}, {0x2a, 0x2b, 0x2c, 0x2d, 0x2e, 0x2f, 0x30, 0x31, 0x32, 0x33, 0x34, 0x35}}[s.Intn(2)]
+		d.add(true, "shared-leaf-serial")
+	}
 
 	// leave head-room so that "higher than the platform" levels can be expressed
 	for i := range w.Sgx.Comp {
@@ -156,6 +163,18 @@ func DrawWorld(t *rapid.T, cfg WorldCfg) (*World, *Drawn) {
 		d.add(w.ChainNUL, "nul")
 		w.Sgx.WithPlatformIns = rapid.Bool().Draw(t, "platformInstance")
 		w.Sgx.WithConfig = rapid.Bool().Draw(t, "configuration")
+		// the leaf's own CRL distribution point is not what decides which PCK CRL is asked for (the issuing CA is)
+		switch rapid.IntRange(0, 5).Draw(t, "leafCrlDP") {
+		case 1:
+			w.LeafSpec.CRLDP = []string{PckCrlURL("processor")} // names the OTHER CA's list (worlds drawn here are platform-CA worlds)
+			d.add(true, "leaf-crldp-names-other-ca")
+		case 2:
+			w.LeafSpec.CRLDP = []string{"https://crl.example.test/pck.crl"}
+			d.add(true, "leaf-crldp-unrelated")
+		case 3:
+			w.LeafSpec.CRLDP = []string{"https://crl.example.test/pck.crl", PckCrlURL("processor"), PckCrlURL("platform")}
+			d.add(true, "leaf-crldp-several")
+		}
 	}
 
 	w.HonestCollateral()
